@@ -193,7 +193,13 @@ func genAccept(g *prng.R) c06Case {
 				objs = append(objs, a)
 			}
 		}
-		objs = append(objs, R2+"/users/somebody-else")
+		if g.Bool() {
+			objs = append(objs, R2+"/users/somebody-else")
+		} else {
+			// as many entries as accepters: one followed actor is listed twice
+			objs = append(objs, objs[0])
+			variant = "lacks-one-accepter-repeats-another"
+		}
 		stored["object"] = objs
 		cond = false
 	case "good-superset":
@@ -257,7 +263,7 @@ func genAccept(g *prng.R) c06Case {
 func genUndo(g *prng.R) c06Case {
 	sc := inboxScenario(nil, nil)
 	pool := []string{carol(), dave(), erin()}
-	rel := pick(g, "equal", "subset", "superset", "disjoint", "equal")
+	rel := pick(g, "equal", "subset", "superset", "disjoint", "equal", "differs-in-query", "differs-in-fragment")
 	var undoActors, objActors []string
 	switch rel {
 	case "equal":
@@ -268,6 +274,10 @@ func genUndo(g *prng.R) c06Case {
 		undoActors, objActors = pool[:2], pool[:1]
 	case "disjoint":
 		undoActors, objActors = pool[:1], pool[2:]
+	case "differs-in-query": // two actors of one site, told apart by the query alone
+		undoActors, objActors = []string{R1 + "/?author=2"}, []string{R1 + "/?author=1"}
+	case "differs-in-fragment":
+		undoActors, objActors = []string{R1 + "/people#mallory"}, []string{R1 + "/people#alice"}
 	}
 	n := g.Range(1, 3)
 	var objs A
@@ -432,7 +442,7 @@ func genBlocked(g *prng.R) c06Case {
 func init() {
 	checks["c06"] = func(id string) int {
 		r := newRun(id, "exploration")
-		r.Rule = "inbox POSTs over (a) Update/Delete with activity-id host vs 1..3 object-id hosts in {equal, different, port-differing, sub-domain, case-only} as IRIs or embedded objects, (b) Accept/Follow graphs with the stored Follow present / absent / of another type / with another actor / lacking an accepting actor / with extra objects, the Follow embedded or by IRI (a forged remote copy is served), (c) Undo with actor sets equal / subset / superset / disjoint over 1..3 undone activities (the uncovered one anywhere; embedded copies that disagree with the served document; unfetchable and actor-less documents), (d) 1..3 activity actors each as IRI or embedded object, each blocked or not; the store delta, the Blocked argument and the response are compared with a model of the four checks; undone activities whose document is of an unknown type; non-trivial = a case whose model outcome is 'reject' or whose actors include an embedded object; distinct by scenario"
+		r.Rule = "inbox POSTs over (a) Update/Delete with activity-id host vs 1..3 object-id hosts in {equal, different, port-differing, sub-domain, case-only} as IRIs or embedded objects, (b) Accept/Follow graphs with the stored Follow present / absent / of another type / with another actor / lacking an accepting actor (a followed one listed twice in its place) / with extra objects, the Follow embedded or by IRI (a forged remote copy is served), (c) Undo with actor sets equal / subset / superset / disjoint / differing in the query or the fragment of one id only, over 1..3 undone activities (the uncovered one anywhere; embedded copies that disagree with the served document; unfetchable and actor-less documents), (d) 1..3 activity actors each as IRI or embedded object, each blocked or not; the store delta, the Blocked argument and the response are compared with a model of the four checks; undone activities whose document is of an unknown type; non-trivial = a case whose model outcome is 'reject' or whose actors include an embedded object; distinct by scenario"
 		r.Assumptions = []string{"hosts differing only in letter case are accepted with either outcome", "store equality is JSON equality of the simulated byte store, the inbox page excepted"}
 		judge := func(cs c06Case) {
 			sc := cs.Sc
